@@ -17,10 +17,16 @@ structure TableSpec.Wf (t : TableSpec) : Prop where
   rule_ins : ∀ r ∈ t.rules, r.ins.length = t.inputs.length
   rule_outs : ∀ r ∈ t.rules, r.outs.length = t.outputs.length
   rule_anns : ∀ r ∈ t.rules, r.anns.length = t.annotations.length
-  in_values : ∀ i ∈ t.inputs, i.values.isSome = t.hasValues
-  out_values : ∀ o ∈ t.outputs, o.values.isSome = t.hasValues
+  in_values : ∀ i ∈ t.inputs, ∀ v, i.values = some v → (trim v).isEmpty = false
+  out_values : ∀ o ∈ t.outputs, ∀ v, o.values = some v → (trim v).isEmpty = false
   single : t.outputs.length = 1 → t.label.isSome = true ∧ ∀ o ∈ t.outputs, o.name = none
   multi : t.outputs.length ≠ 1 → ∀ o ∈ t.outputs, o.name.isSome = true
+
+theorem opt_all_iff {o : Option Text} {p : Text → Bool} :
+    o.all p = true ↔ ∀ v, o = some v → p v = true := by
+  cases o with
+  | none => simp
+  | some x => simp
 
 theorem TableSpec.wf_iff (t : TableSpec) : t.wf = true ↔ t.Wf := by
   constructor
@@ -29,7 +35,13 @@ theorem TableSpec.wf_iff (t : TableSpec) : t.wf = true ↔ t.Wf := by
       Bool.not_eq_true', List.isEmpty_eq_false_iff, beq_iff_eq] at h
     obtain ⟨⟨⟨⟨⟨⟨⟨h1, h2⟩, h3⟩, h4⟩, h5⟩, h6⟩, h7⟩, h8⟩ := h
     refine ⟨h1, List.length_pos_iff.mpr h2, List.length_pos_iff.mpr h3, List.length_pos_iff.mpr h4,
-      fun r hr => (h5 r hr).1.1, fun r hr => (h5 r hr).1.2, fun r hr => (h5 r hr).2, h6, h7, ?_, ?_⟩
+      fun r hr => (h5 r hr).1.1, fun r hr => (h5 r hr).1.2, fun r hr => (h5 r hr).2, ?_, ?_, ?_, ?_⟩
+    · intro i hi v hv
+      have := opt_all_iff.mp (h6 i hi) v hv
+      simpa using this
+    · intro o ho v hv
+      have := opt_all_iff.mp (h7 o ho) v hv
+      simpa using this
     · intro hm
       rw [if_pos hm] at h8
       simp only [Bool.and_eq_true, List.all_eq_true, Option.isNone_iff_eq_none] at h8
@@ -42,13 +54,21 @@ theorem TableSpec.wf_iff (t : TableSpec) : t.wf = true ↔ t.Wf := by
       Bool.not_eq_true', List.isEmpty_eq_false_iff, beq_iff_eq]
     refine ⟨⟨⟨⟨⟨⟨⟨h.orient, List.length_pos_iff.mp h.inputs_pos⟩, List.length_pos_iff.mp h.outputs_pos⟩,
       List.length_pos_iff.mp h.rules_pos⟩, fun r hr => ⟨⟨h.rule_ins r hr, h.rule_outs r hr⟩, h.rule_anns r hr⟩⟩,
-      h.in_values⟩, h.out_values⟩, ?_⟩
-    by_cases hm : t.outputs.length = 1
-    · rw [if_pos hm]
-      simp only [Bool.and_eq_true, List.all_eq_true, Option.isNone_iff_eq_none]
-      exact h.single hm
-    · rw [if_neg hm]
-      simpa [List.all_eq_true] using h.multi hm
+      ?_⟩, ?_⟩, ?_⟩
+    · intro i hi
+      apply opt_all_iff.mpr
+      intro v hv
+      simpa using h.in_values i hi v hv
+    · intro o ho
+      apply opt_all_iff.mpr
+      intro v hv
+      simpa using h.out_values o ho v hv
+    · by_cases hm : t.outputs.length = 1
+      · rw [if_pos hm]
+        simp only [Bool.and_eq_true, List.all_eq_true, Option.isNone_iff_eq_none]
+        exact h.single hm
+      · rw [if_neg hm]
+        simpa [List.all_eq_true] using h.multi hm
 
 /-- What the region numbers must satisfy for a table with `n` inputs and `m` outputs: an
 input expression cell and the allowed-values cell below it are different regions, and so
@@ -322,39 +342,39 @@ end Row0
 
 /-! ## The master lemma: `recognize_horizontal_table` given the header analysis -/
 
-theorem Rect.width_mk {l tp r b : Nat} (h : l ≤ r) : Rect.width ⟨l, tp, r, b⟩ = ok (r - l) := by
-  simp [Rect.width, h]
+theorem Rect.width_mk {l tp r b : Nat} (_ : l ≤ r) : Rect.width ⟨l, tp, r, b⟩ = ok (r - l) := by
+  simp [Rect.width]
 
-theorem Rect.height_mk {l tp r b : Nat} (h : tp ≤ b) : Rect.height ⟨l, tp, r, b⟩ = ok (b - tp) := by
-  simp [Rect.height, h]
+theorem Rect.height_mk {l tp r b : Nat} (_ : tp ≤ b) : Rect.height ⟨l, tp, r, b⟩ = ok (b - tp) := by
+  simp [Rect.height]
 
 /-- The record `recognize_horizontal_table` yields for a drawn table. -/
-def horzOf (t : TableSpec) : Horz :=
+def horzOf (d : Decor) (t : TableSpec) : Horz :=
   { inputClauseCount := t.inputs.length
     inputExpressions := t.exprs
-    inputValues := if t.hasValues then t.ivals else []
+    inputValues := if t.hasValues then t.ivals d else []
     inputEntries := t.rules.map (·.ins)
     outputClauseCount := t.outputs.length
     outputLabel := t.label
     outputComponents := if t.outputs.length = 1 then [] else t.names
-    outputValues := if t.hasValues then t.ovals else []
+    outputValues := if t.hasValues then t.ovals d else []
     outputEntries := t.rules.map (·.outs)
     annotationClauseCount := t.annotations.length
     annotations := t.annotations
     annotationEntries := if t.annotations.length = 0 then [] else t.rules.map (·.anns) }
 
 theorem recognizeHorizontal_bodyOver {ids : Ids} {t : TableSpec} {hdr : List (List Cell)}
-    (nm : Option Text) (hw : t.Wf) (hh : HeaderOk ids t hdr)
+    (d : Decor) (nm : Option Text) (hw : t.Wf) (hh : HeaderOk ids t hdr)
     (hivp : inputValuesPresent (bodyOver ids t hdr nm) ⟨0, 0, t.inputs.length, hdr.length⟩ hdr.length
       = ok t.hasValues)
     (hvals : t.hasValues = true →
-      (bodyOver ids t hdr nm).rowTexts (hdr.length - 1) 0 t.inputs.length = ok t.ivals)
+      (bodyOver ids t hdr nm).rowTexts (hdr.length - 1) 0 t.inputs.length = ok (t.ivals d))
     (hout : outputHeader (bodyOver ids t hdr nm)
       ⟨t.inputs.length + 1, 0, t.inputs.length + 1 + t.outputs.length, hdr.length⟩
       t.outputs.length hdr.length t.hasValues =
         ok ⟨t.label, if t.outputs.length = 1 then [] else t.names,
-            if t.hasValues then t.ovals else []⟩) :
-    recognizeHorizontal (bodyOver ids t hdr nm) = ok (horzOf t) := by
+            if t.hasValues then t.ovals d else []⟩) :
+    recognizeHorizontal (bodyOver ids t hdr nm) = ok (horzOf d t) := by
   have hmain := bodyOver_main ids t hdr nm hh.plain
   have hheight := bodyOver_height ids t hdr nm
   have hwidth := bodyOver_width nm hh
@@ -365,7 +385,7 @@ theorem recognizeHorizontal_bodyOver {ids : Ids} {t : TableSpec} {hdr : List (Li
       ok ⟨0, hdr.length + 1, t.inputs.length, hdr.length + 1 + t.rules.length⟩ := by
     simp [Plane.horzInputEntriesRect, hmain, hheight]
   have hivals : inputValuesRow (bodyOver ids t hdr nm) ⟨0, 0, t.inputs.length, hdr.length⟩ t.hasValues
-      = ok (if t.hasValues then t.ivals else []) := by
+      = ok (if t.hasValues then t.ivals d else []) := by
     unfold inputValuesRow
     cases hV : t.hasValues with
     | false => simp
